@@ -10,6 +10,7 @@ class Gen:
         self.label = 0
         self.max_nodes = max_nodes
         self.created = 0
+        self.nest = 0
 
     def fresh(self):
         self.counter += 1
@@ -75,10 +76,11 @@ class Gen:
         if self.has("ctx_in_callback"):
             ss.append(("provide", r.randint(0, 2), ("lit", r.randint(0, 9))))
         if self.has("dispose_in_callback"):
-            targets = [n for n, k in inner if k in ("handle", "sig", "read")]
+            pos = r.randint(0, len(ss))
+            bound = {n for n, _ in vars} | {s[1] for s in ss[:pos] if s[0] in ("signal", "memo", "selector", "effect", "scope", "curscope")}
+            targets = [n for n, k in inner if k in ("handle", "sig", "read") and n in bound]
             if targets:
-                pos = r.randint(0, len(ss))
-                ss.insert(pos, ("if", self.expr(inner, 1), [("dispose", r.choice(targets))], []))
+                ss.insert(pos, ("if", self.expr(vars, 1), [("dispose", r.choice(targets))], []))
         on = None
         rd = self.readable(vars)
         if rd and self.has("on"):
@@ -126,10 +128,26 @@ class Gen:
             choices.append(("component", 0.7))
         if self.f.get("cleanup"):
             choices.append(("oncleanup", 1))
+        if self.nest >= 3:
+            choices = [c for c in choices if c[0] not in ("scope", "runin", "untrack", "component")]
         if not choices:
             return None, vars
         kinds, ws = zip(*choices)
         k = r.choices(kinds, ws)[0]
+        if k in ("scope", "runin", "untrack", "component"):
+            self.nest += 1
+            try:
+                return self.block_stmt(k, vars, depth, in_callback)
+            finally:
+                self.nest -= 1
+        return self.simple_stmt(k, vars, depth, in_callback)
+
+    def block_stmt(self, k, vars, depth, in_callback):
+        r = self.rng
+        return self.simple_stmt(k, vars, depth, in_callback)
+
+    def simple_stmt(self, k, vars, depth, in_callback):
+        r = self.rng
         if k == "signal":
             x = self.fresh()
             self.created += 1
